@@ -719,11 +719,16 @@ package service
 //@   requires pc != nil && pc.closeCh != nil && !closed(pc.closeCh)
 //@   ensures[C12,closed-after-close] closed(pc.closeCh)
 
+// Acquire counts a handle exactly when it hands one out (count == number of handles whose close
+// function has not run): a failed Acquire leaves the count alone.
 //@ func (*multiStreamListener).Acquire
-//@   props C11 C12 C13 C18 C19
+//@   props C10 C11 C12 C13 C18 C19
 //@   acquires-level 30
 //@   requires m != nil
 //@   ensures result.1 == nil ==> result.0 != nil
+//@   ensures[C10,C11,C12,handle-counted] result.1 == nil ==> int(m.count) == (int(atlock(m.count)) + 1) % 4294967296 && m.ln != nil
+//@   ensures[C10,C11,C12,failed-acquire-not-counted] result.1 != nil ==> m.count == atlock(m.count) && m.ln == atlock(m.ln)
+//@   trace[C12,socket-reused-when-open] never net.ListenTCP when atlock(m.ln) != nil
 
 // accept goroutine of a shared stream listener: owns acceptCh (the only sender and closer)
 //@ func (*multiStreamListener).Acquire$1
@@ -746,10 +751,13 @@ package service
 //@   trace[C12,close-on-last] exactly 1 service.StreamListener.Close when atlock(m.count) == 1
 
 //@ func (*multiPacketListener).Acquire
-//@   props C11 C12 C13 C18 C19
+//@   props C10 C11 C12 C13 C18 C19
 //@   acquires-level 30
 //@   requires m != nil
 //@   ensures result.1 == nil ==> result.0 != nil
+//@   ensures[C10,C11,C12,handle-counted] result.1 == nil ==> int(m.count) == (int(atlock(m.count)) + 1) % 4294967296 && m.pc != nil
+//@   ensures[C10,C11,C12,failed-acquire-not-counted] result.1 != nil ==> m.count == atlock(m.count) && m.pc == atlock(m.pc)
+//@   trace[C12,socket-reused-when-open] never net.ListenPacket when atlock(m.pc) != nil
 
 // read goroutine of a shared packet listener
 //@ pred chaninv_readCh(v readRequest) := v.respCh != nil && !closed(v.respCh)
